@@ -276,11 +276,14 @@ def c08(tier, seed):
 
 
 def c09(tier, seed):
-    return _verus_prop("C09", tier, seed, [("edges", r"::(all_edges|only_inner_type_edges|codegen_edges)::", None)], {
+    return _verus_prop("C09", tier, seed, [("edges", r"::(all_edges|only_inner_type_edges|codegen_edges)::", None), ("roots", None, None), ("blocklist", None, None)], {
         "trusted_base": ["extraction rules R1-R11; env/edges_env.rs: uninterpreted CodegenConfig reads and Item::is_enabled_for_codegen; is_type_edge table from the Trace impls"],
-        "functions_under_contract": ["bindgen/ir/traversal.rs: codegen_edges, only_inner_type_edges, all_edges"],
-        "assumptions": ["per-edge decision only: every edge kind whose target is a type is followed iff types are generated; vars/methods/constructors/destructors likewise; no-recursive mode follows exactly InnerType"],
-        "unverified": ["root selection by regex sets (compute_allowlisted_and_codegen_items), ItemTraversal over the real graph, every Trace impl, regex anchoring ^(..)$ in regex_set.rs, textual identity with the un-allowlisted run: closure/minimality are not decided"],
+        "functions_under_contract": ["bindgen/ir/traversal.rs: codegen_edges, only_inner_type_edges, all_edges",
+                                     "bindgen/ir/context.rs: the root-selection predicate of compute_allowlisted_and_codegen_items (a closure, extracted by rule R18; the unnamed-enum variant loop is one uninterpreted accessor)",
+                                     "bindgen/ir/item.rs: Item::is_blocklisted (an item matched by an allowlist and a blocklist is not emitted: the traversal skips blocklisted items)"],
+        "assumptions": ["root selection: an item is a root exactly when nothing is allowlisted, or it replaces a type, or its file / the generic item list / the list of ITS kind matches its path (+ the documented auto-allowlisting of codeless types in no-recursive mode and of unnamed top-level enums by variant); regex matching and path joining uninterpreted",
+                        "per-edge decision: every edge kind whose target is a type is followed iff types are generated; vars/methods/constructors/destructors likewise; no-recursive mode follows exactly InnerType"],
+        "unverified": ["the variant-path loop of the unnamed-enum clause (seed S17 missed), ItemTraversal over the real graph, every Trace impl, regex anchoring ^(..)$ in regex_set.rs, textual identity with the un-allowlisted run: closure/minimality are not decided"],
     })
 
 
